@@ -24,6 +24,13 @@ pub mod streaming;
 pub mod tcp;
 pub mod versioning;
 
+/// Verification hook: re-exports the private request enum so a harness can decode SDK-encoded
+/// requests and enter the public command dispatcher.
+#[cfg(iggy_verif)]
+pub mod verif_api {
+    pub use crate::command::ServerCommand;
+}
+
 const VERSION: &str = env!("CARGO_PKG_VERSION");
 const IGGY_ROOT_USERNAME_ENV: &str = "IGGY_ROOT_USERNAME";
 const IGGY_ROOT_PASSWORD_ENV: &str = "IGGY_ROOT_PASSWORD";
